@@ -1,6 +1,6 @@
-\* simulation: random histories of length 15, at most 5 error steps each; one valid and one invalid
-\* argument tuple drawn per call and handle
-SPECIFICATION Spec
+\* simulation (tlc -simulate, SimSpec): random histories of length 15, at most 5 error steps each; one valid
+\* and one invalid argument tuple drawn per call and handle; each finished history is printed once
+SPECIFICATION SimSpec
 CONSTANTS
   NViews = 6
   NStores = 4
@@ -9,12 +9,12 @@ CONSTANTS
   ESizes = {1, 2, 3, 4}
   NStamps = 24
   PatMod = 200
-  Dom <- DomFull
-  Dom2 <- Dom2Near
+  Dom <- DomClass
+  Dom2 <- Dom2Sim
   WrapAt = {0, 2}
   Progress = FALSE
   Mode = "sim"
   Prefixes <- NoPrefix
   Depth = 15
   MaxErr = 5
-CONSTRAINT Emit
+CHECK_DEADLOCK FALSE
